@@ -90,11 +90,14 @@ def judge_socket(data: bytes, cfg: dict, chunk: int, bufsize: int):
     """The slice clauses for a socket-backed reader (fixed recv chunks)."""
     from pyubx2 import UBXReader
     out, items = [], []
+    sock = streams.ChunkSocket(data, chunk)
     try:
-        rd = UBXReader(streams.ChunkSocket(data, chunk), bufsize=bufsize, **streams.cfg_kwargs(cfg, (lambda e: None) if cfg.get("handler") else None))
+        rd = UBXReader(sock, bufsize=bufsize, **streams.cfg_kwargs(cfg, (lambda e: None) if cfg.get("handler") else None))
         while len(items) <= len(data) + 4:
             raw, _ = rd.read()
             if raw is None:
+                if sock.p < len(data):  # end of stream reported although the peer has more to send
+                    out.append(("eos_with_unread_bytes|socket", f"socket delivered {sock.p} of {len(data)} bytes, chunk={chunk} bufsize={bufsize}"))
                 break
             items.append(raw)
     except Exception:  # noqa: BLE001  (judged by C08 / C10)
